@@ -101,6 +101,8 @@ def parse_vspec(path):
                     ent["derive"] = o[len("derive="):]
                 if o.startswith("eval="):
                     ent["eval"] = o[len("eval="):]
+                if o.startswith("bytes="):
+                    ent["bytes"] = o[len("bytes="):]
             spec["entries"].append(ent)
         elif head == "impl":
             parts = rest.split()
@@ -610,6 +612,20 @@ class UnitGen:
                     edits.append((a + len(m.group(1).encode()), b, ent["eval"] + ";", "R11"))
                     self.rewrites.append({"rule": "R11", "what": f"const {ent['name']} initialiser `{m.group(2)}` evaluated to {ent['eval']}",
                                           "file": src.rel, "line": src.line_of(a)})
+                if ent.get("bytes") is not None:
+                    # R16: a byte-string constant becomes an exec const whose content is an uninterpreted spec value
+                    # (the literal itself is compared with the text expected by the contract file)
+                    txt = src.text(a, b)
+                    m = re.match(r"(?s).*?\bconst\s+(\w+)\s*:\s*&(?:'static\s+)?\[u8\]\s*=\s*(b\"[^\"]*\")\s*;\s*$", txt)
+                    if not m or m.group(2) != 'b"' + ent["bytes"] + '"':
+                        raise Undecided(f"const {ent['name']}: R16 refused (initialiser is not b\"{ent['bytes']}\": {txt.strip()!r})")
+                    nm = m.group(1)
+                    em.raw(f"uninterp spec fn {nm}_spec() -> Seq<u8>;\n#[verifier::external_body]\nexec const {nm}: &'static [u8] ensures {nm}@ == {nm}_spec() {{ {m.group(2)} }}\n", ("rw", "R16"))
+                    self.rewrites.append({"rule": "R16", "what": f"const {nm} = {m.group(2)} emitted as exec const with uninterpreted content {nm}_spec()",
+                                          "file": src.rel, "line": src.line_of(a)})
+                    self.items.append({"kind": "const", "name": ent["name"], "file": src.rel, "lines": [src.line_of(a), src.line_of(b)],
+                                       "sha256": hashlib.sha256(src.bytes[a:b]).hexdigest()})
+                    continue
                 if ent["kind"] == "const":
                     # R14: elided lifetime in a const's reference type is 'static (spelled out for the verus! macro)
                     txt = src.text(a, b)
